@@ -20,6 +20,7 @@ FLOORS = {"C10/D1": 3, "C10/D2": 5, "C10/D3": 3, "C10/D4": 2, "C10/D5": 3}
 def run(ctx):
     canon.resolve_names(ctx)
     canon.check_convert(ctx, "C10/D2", "C10/D1")
+    canon.check_member_order(ctx, "C10/D1")
     canon.check_writer(ctx, "C10/D3", "C10/D5")
     canon.check_no_ambient(ctx, "C10/D4")
     canon.check_public_canonicalize(ctx, "C10/D5")
